@@ -66,6 +66,30 @@ def parse_counts(outs):
     return tot, hist, maxdepth
 
 
+def wrap_campaign(ctx, drv, cases):
+    """Run the 2^64-boundary cases in child processes under an address-space limit; a case that kills its process
+    (a wrapped gas cost makes the interpreter allocate ~96 GiB) leaves its announcement without an end in the trace,
+    and the driver is restarted behind it."""
+    sp = os.path.join(ctx.scratch, "wrapcases.json")
+    json.dump(cases, open(sp, "w"))
+    tp = os.path.join(ctx.scratch, "wrap.ndjson")
+    skip, deaths = 0, 0
+    for _ in range(len(cases) + 2):
+        p = ctx.run(["prlimit", "--as=8589934592", drv, "--config", "b", "--wrapcases", sp, "--out", tp, "--skip", str(skip),
+                     "--scratch", os.path.join(ctx.scratch, "wst%d" % skip)], timeout=300, ok_codes=tuple(range(-64, 256)), quiet=True)
+        last = None
+        with open(tp) as f:
+            for line in f:
+                last = json.loads(line)
+        if last is not None and last["event"] == "WrapDone":
+            return tp, deaths
+        if last is None or last["event"] != "WrapBegin":
+            raise Inconclusive("wrap campaign: driver ended (code %s) without a pending case" % p.returncode)
+        deaths += 1
+        skip = last["index"] + 1
+    raise Inconclusive("wrap campaign did not finish")
+
+
 def run(ctx):
     quick = ctx.quick()
     mc = {}
@@ -75,6 +99,7 @@ def run(ctx):
             lambda: gens.setdefault("xcases", ctx.tlc("EvmGasState", cfg="EvmGasState_x.cfg", workers=2)),
             lambda: gens.setdefault("calls", ctx.tlc("EvmGasGen", cfg="EvmGasGen_calls.cfg", workers=2)),
             lambda: gens.setdefault("mem", ctx.tlc("EvmGasGen", cfg="EvmGasGen_mem.cfg", workers=2)),
+            lambda: gens.setdefault("wrap", ctx.tlc("EvmGasWrap", cfg="EvmGasWrap.cfg", workers=2)),
             lambda: gens.setdefault("loop", ctx.tlc("EvmGasGen", cfg="EvmGasGen_loop.cfg", workers=2)),
             lambda: gens.setdefault("layout", ctx.tlc("EvmGasGen", cfg="EvmGasGen_layout.cfg" if quick else "EvmGasGen_layout_full.cfg", workers=2)),
             lambda: mc.setdefault("gas", ctx.tlc("EvmGas", cfg="EvmGas.cfg", workers=2, coverage=not quick)),
@@ -157,6 +182,14 @@ def run(ctx):
     if hist["ENDS"].get("end-", 0) == 0 or tot.get("precompile_calls", 0) < 18:
         raise Inconclusive("vacuity: no successful run or precompiles not exercised")
 
+    # 2^64-boundary cases of the magnified dynamic gas (Proposal026 configuration), child processes under an address-space limit
+    wcases = [json.loads(raw.strip()[1:-1].replace('\\"', '"')) for raw in ctx.tlc_lines(gens["wrap"], "WRAP")]
+    if len(wcases) < 21:
+        raise Inconclusive("EvmGasWrap produced %d cases" % len(wcases))
+    wtrace, wdeaths = wrap_campaign(ctx, drv, wcases)
+    log("EvmGasWrap: %d boundary cases run, %d process deaths" % (len(wcases), wdeaths))
+    traces.append(wtrace)
+    tables.append(tables[0])
     results = threads([(lambda tp=tp, jt=jt: ctx.validate_trace("EvmGasTrace", tp, timeout=1500,
                                                                  extra_files=[(jt, "jumptable.json")]))
                        for tp, jt in zip(traces, tables)])
@@ -191,6 +224,8 @@ def run(ctx):
         "tlc_generated_call_sequences": len(script["calls"]),
         "tlc_generated_memory_cases": len(script["mem"]),
         "tlc_generated_looped_calls": len(script["loops"]),
+        "gas_boundary_cases_2_64": len(wcases),
+        "gas_boundary_process_deaths": wdeaths,
         "tlc_generated_code_layouts": len(script["layouts"]),
         "extension_state_access": {
             "rule_set_active": "Istanbul-era constants (SLOAD 800, account reads 700, CALL family 700 + 9000 value + 25000 new account, "
